@@ -841,6 +841,43 @@ def range_arms(fnbody, param=None):
     return out
 
 
+def pred_fn_set(src, name):
+    """the set of bytes accepted by the one-parameter predicate `fn name(b: u8) -> bool` of src"""
+    b = fn_body(src, name)
+    (v,) = fn_params(src, name)
+    return byte_set(b, v, src, body=b)
+
+
+def contains_bytes(body, src=""):
+    """the bytes of RECEIVER in the (single) `RECEIVER.contains(x)` of body: a b"…" literal, an array, or a const / let"""
+    ms = re.findall(r'(b"(?:\\.|[^"\\])*"|&?\[[^\]]*\]|\b[A-Za-z_]\w*)\s*\.contains\(', body)
+    if len(ms) != 1:
+        raise ValueError("expected one .contains(), found %d" % len(ms))
+    return byte_string(ms[0], body, src)
+
+
+def hex_nibble_tables(b):
+    """HexStringLexer::next_hex_byte: for every `match <c> { LO..=HI => c - LO + ADD, … }`: ([(lo, hi, add)], [(END literal,
+    arm expression)] of the single-literal arms, name of c)"""
+    out = []
+    for m in re.finditer(r"\bmatch\s+(\w+)\s*\{", b):
+        o = m.end() - 1
+        rows, singles = [], []
+        for arm in match_arms(b[o + 1:close_of(b, o)]):
+            mm = re.fullmatch(r"(" + BYTE + r")\s*\.\.=\s*(" + BYTE + r")", arm.pattern)
+            if mm and arm.guard is None:
+                lo = int_value(mm.group(1))
+                add = affine(arm.expr, m.group(1)) + lo
+                if add < 0:
+                    raise ValueError("arm subtracts more than its range start")
+                rows.append((lo, int_value(mm.group(2)), add))
+            elif re.fullmatch(BYTE, arm.pattern) and arm.guard is None:
+                singles.append((int_value(arm.pattern), arm.expr))
+        if rows:
+            out.append((rows, singles, m.group(1)))
+    return out
+
+
 def norm_ws(s):
     return re.sub(r"\s+", "", s)
 
